@@ -19,7 +19,9 @@ Inductive mp_ty :=
 | TMap (e : mp_ty)             (* map[string]T, written in key order (msgp.Sort) *)
 | TPtr (e : mp_ty)             (* nil or value *)
 | TStruct (fs : list (list Z * mp_ty))   (* map of key -> field, in declaration order *)
-| TVer (alts : list (list Z * mp_ty)).   (* entitywrapper: version tag -> struct schema *)
+| TVer (alts : list (list Z * mp_ty))    (* entitywrapper: version tag -> struct schema *)
+| TDrop (e : mp_ty).           (* written as e; the hand-written UnmarshalMsg decodes an e into a
+                                  shadow value and copies nothing back: reads back as the zero value *)
 
 Inductive mp_val :=
 | VBool (b : bool)
@@ -337,6 +339,7 @@ Fixpoint mp_enc (t : mp_ty) (v : mp_val) {struct t} : list Z :=
          | (k, at_) :: tl => if mp_key_eqb k tag then mp_enc at_ x else find tl
          | [] => []
          end) alts
+  | TDrop e, x => mp_enc e x
   | _, _ => []
   end.
 
@@ -354,6 +357,7 @@ Fixpoint mp_zero (t : mp_ty) : mp_val :=
   | TStruct fs => VStruct ((fix go (fs : list (list Z * mp_ty)) : list mp_val :=
                               match fs with (_, ft) :: tl => mp_zero ft :: go tl | [] => [] end) fs)
   | TVer _ => VVer [] (VStruct [])
+  | TDrop e => mp_zero e
   end.
 
 (* ---------- decoding ---------- *)
@@ -508,6 +512,8 @@ Fixpoint mp_dec (t : mp_ty) : mp_decoder :=
              | [] => None
              end) alts
       end
+  | TDrop e => fun b =>
+      match mp_dec e b with Some (_, r) => Some (mp_zero e, r) | None => None end
   end.
 
 (* ---------- entitywrapper: MigrateFrom as copy of the same-named fields ---------- *)
@@ -523,7 +529,7 @@ Fixpoint mp_ty_eqb (a b : mp_ty) {struct a} : bool :=
   match a, b with
   | TBool, TBool | TF64, TF64 | TStr, TStr | TBin, TBin => true
   | TInt x, TInt y | TUint x, TUint y => Z.eqb x y
-  | TArr x, TArr y | TMap x, TMap y | TPtr x, TPtr y => mp_ty_eqb x y
+  | TArr x, TArr y | TMap x, TMap y | TPtr x, TPtr y | TDrop x, TDrop y => mp_ty_eqb x y
   | TStruct x, TStruct y | TVer x, TVer y =>
       (fix go (l : list (list Z * mp_ty)) (m : list (list Z * mp_ty)) : bool :=
          match l, m with
